@@ -343,5 +343,193 @@ func c15Check(env *h.Env, c *c15Case) error {
 }
 
 func TestC15(t *testing.T) {
-	h.Run(t, "C15", genC15, c15Check)
+	r := h.NewRunner("C15")
+	defer r.Finish(t)
+	h.RunWith(t, r, "", genC15, c15Check)
+	if t.Failed() {
+		return
+	}
+	t.Run("wildunion", func(t *testing.T) {
+		h.ScaleChecks(1, 3, func() { h.RunWith(t, r, "wildunion", genC15Union, c15UnionCheck) })
+	})
+}
+
+// ---------------------------------------------------------------------------
+// sub-run "wildunion": "wildcard sources behave as the union of their matches",
+// as a metamorphic relation without any restriction on the destination
+// argument: a copy with a wildcard source must give the same verdict and the
+// same destination as copying its matches (expanded on the model, in walk
+// order) one after the other with wildcards off.
+
+type c15UnionCase struct {
+	Src    *h.Tree  `json:"src"`
+	Dst    *h.Tree  `json:"dst"`
+	SrcArg string   `json:"srcarg"`
+	DstArg string   `json:"dstarg"`
+	Opts   h.CpOpts `json:"opts"`
+}
+
+func genC15Union(t *rapid.T) *c15UnionCase {
+	cfg := c15TreeCfg
+	cfg.Hardlinks = false
+	c := &c15UnionCase{Src: h.GenTree(t, cfg, "src"), Dst: h.GenTree(t, c15TreeCfg, "dst")}
+	c.Opts.Wildcards = true
+	c.Opts.DirContents = rapid.Bool().Draw(t, "dircontents")
+	c.Opts.AlwaysReplace = rapid.IntRange(0, 2).Draw(t, "replace") == 0
+	c.SrcArg = rapid.SampledFrom([]string{"*", "*", "a*", "?", "*/a", "*/*", "a/*", "a/b*", "*b", "[ab]", "[abc]*", "zz*", "*/?/*"}).Draw(t, "glob")
+	if len(c.Src.Nodes) > 0 && rapid.IntRange(0, 3).Draw(t, "fromtree") != 0 {
+		// a pattern derived from an entry of the tree: one component widened
+		comps := strings.Split(c.Src.Nodes[rapid.IntRange(0, len(c.Src.Nodes)-1).Draw(t, "globnode")].Path, "/")
+		j := rapid.IntRange(0, len(comps)-1).Draw(t, "globcomp")
+		comps[j] = rapid.SampledFrom([]string{"*", comps[j][:1] + "*", "?*", "[a-c]*"}).Draw(t, "globform")
+		c.SrcArg = strings.Join(comps, "/")
+	}
+	didx := c.Dst.Index()
+	viaSymlink := func(p string) bool {
+		cur := ""
+		for _, cm := range strings.Split(p, "/") {
+			if cur == "" {
+				cur = cm
+			} else {
+				cur += "/" + cm
+			}
+			if n, ok := didx[cur]; ok && n.Kind == h.KSymlink {
+				return true
+			}
+		}
+		return false
+	}
+	var cands []string
+	for _, n := range c.Dst.Nodes {
+		if !viaSymlink(n.Path) {
+			cands = append(cands, n.Path)
+		}
+	}
+	switch k := rapid.IntRange(0, 6).Draw(t, "dstkind"); {
+	case k == 0:
+		c.DstArg = "/"
+	case k <= 2 && len(cands) > 0:
+		c.DstArg = cands[rapid.IntRange(0, len(cands)-1).Draw(t, "dstnode")]
+	case k <= 4:
+		c.DstArg = rapid.SampledFrom([]string{"new", "new/all", "n1/n2/n3"}).Draw(t, "newdst")
+	default:
+		if len(cands) > 0 {
+			c.DstArg = cands[rapid.IntRange(0, len(cands)-1).Draw(t, "under")] + "/" + rapid.SampledFrom([]string{"new", "a", "n1/n2"}).Draw(t, "leaf")
+		} else {
+			c.DstArg = "new"
+		}
+	}
+	if viaSymlink(strings.Trim(c.DstArg, "/")) {
+		c.DstArg = "new"
+	}
+	if c.DstArg != "/" && rapid.IntRange(0, 3).Draw(t, "trailing") == 0 {
+		c.DstArg += "/"
+	}
+	return c
+}
+
+// c15Expand lists the matches of a wildcard source on the model: the literal
+// leading components name the base, the rest is matched against the whole
+// path below it, and a matched directory is not descended into.
+func c15Expand(tr *h.Tree, src string) []string {
+	comps := strings.Split(strings.Trim(src, "/"), "/")
+	k := 0
+	for k < len(comps) && !strings.ContainsAny(comps[k], "*?[") {
+		k++
+	}
+	base, pat := strings.Join(comps[:k], "/"), strings.Join(comps[k:], "/")
+	paths := make([]string, 0, len(tr.Nodes))
+	for _, n := range tr.Nodes {
+		paths = append(paths, n.Path)
+	}
+	sort.Slice(paths, func(i, j int) bool { return h.CmpComponents(paths[i], paths[j]) < 0 })
+	var out []string
+	for _, p := range paths {
+		rel := p
+		if base != "" {
+			if !strings.HasPrefix(p, base+"/") {
+				continue
+			}
+			rel = p[len(base)+1:]
+		}
+		covered := false
+		for _, m := range out {
+			if strings.HasPrefix(p, m+"/") {
+				covered = true
+			}
+		}
+		if covered {
+			continue
+		}
+		if ok, _ := filepath.Match(pat, rel); ok {
+			out = append(out, p)
+		}
+	}
+	return out
+}
+
+func c15UnionCheck(env *h.Env, c *c15UnionCase) error {
+	srcRoot := filepath.Join(env.Scratch, "src")
+	d1, d2 := filepath.Join(env.Scratch, "dst1"), filepath.Join(env.Scratch, "dst2")
+	for _, d := range []string{srcRoot, d1, d2} {
+		if err := os.Mkdir(d, 0o755); err != nil {
+			return h.Infra(err)
+		}
+	}
+	if err := h.Materialise(c.Src, srcRoot); err != nil {
+		return h.Infra(err)
+	}
+	for _, d := range []string{d1, d2} {
+		if err := h.Materialise(c.Dst, d); err != nil {
+			return h.Infra(err)
+		}
+	}
+	// the base of the wildcard must be a real directory (not reached through a link)
+	matches := c15Expand(c.Src, c.SrcArg)
+	ci := fscopy.CopyInfo{CopyDirContents: c.Opts.DirContents, AlwaysReplaceExistingDestPaths: c.Opts.AlwaysReplace, AllowWildcards: true}
+	werr := fscopy.Copy(context.Background(), srcRoot, c.SrcArg, d1, c.DstArg, fscopy.WithCopyInfo(ci))
+	what := fmt.Sprintf("Copy(src=%q -> matches %q, dst=%q, dir-contents=%v, always-replace=%v)", c.SrcArg, matches, c.DstArg, c.Opts.DirContents, c.Opts.AlwaysReplace)
+	env.Class(fmt.Sprintf("matches-%d", min(len(matches), 3)))
+	if len(matches) == 0 {
+		if werr == nil {
+			return fmt.Errorf("%s succeeded although nothing matches", what)
+		}
+		return nil
+	}
+	var serr error
+	ci.AllowWildcards = false
+	for _, m := range matches {
+		if serr = fscopy.Copy(context.Background(), srcRoot, m, d2, c.DstArg, fscopy.WithCopyInfo(ci)); serr != nil {
+			break
+		}
+	}
+	if len(matches) >= 2 {
+		env.NonTrivial()
+	}
+	if (werr == nil) != (serr == nil) {
+		return fmt.Errorf("%s: wildcard copy returned %v, copying the matches one by one returned %v", what, werr, serr)
+	}
+	if werr != nil {
+		env.Class("both-fail")
+		return nil
+	}
+	s1, err := h.Snapshot(d1)
+	if err != nil {
+		return h.Infra(err)
+	}
+	s2, err := h.Snapshot(d2)
+	if err != nil {
+		return h.Infra(err)
+	}
+	p1, p2 := s1.Paths(), s2.Paths()
+	if !sameStrings(p1, p2) {
+		return fmt.Errorf("%s: wildcard copy left %v, copying the matches one by one leaves %v", what, p1, p2)
+	}
+	for _, p := range p1 {
+		a, b := s1[p], s2[p]
+		if a.Kind != b.Kind || a.Perm != b.Perm || a.Uid != b.Uid || a.Gid != b.Gid || a.Sha != b.Sha || a.Target != b.Target || (a.Kind != h.KDir && a.Mtime != b.Mtime) {
+			return fmt.Errorf("%s: %q differs: wildcard copy %+v, one by one %+v", what, p, *a, *b)
+		}
+	}
+	return nil
 }
